@@ -31,5 +31,8 @@ Verdict(c, o) ==
   ELSE IF ~o.stamps_same THEN "TimestampsChanged"
   ELSE IF ~o.xview THEN "ViewsDescribeDifferentPoses"
   ELSE IF o.second # "TrajectoryException" THEN "SecondProjectionNotRefused"
+  \* a metric computed "projected to the plane" with this (already projected) object as reference: either that is refused, or the
+  \* estimate it was computed on really lies in the plane - never a silently skipped projection
+  ELSE IF "ape2" \in DOMAIN o /\ o.ape2 = "nonplanar" THEN "ProjectionSilentlySkipped"
   ELSE "ok"
 ==============================================================================
